@@ -119,6 +119,7 @@ type funcCtx struct {
 	mutRecv bool
 	mutable map[string]bool
 	resultIsSlice []bool
+	resultIface []string // per result: the name of its interface type when that interface is nilable, else ""
 	ownRecv string // (state specs) the name of the method's own receiver
 	trace   bool
 	traceResult bool // the traced handler also returns a value
@@ -1126,6 +1127,16 @@ func (t *trans) retExpr(results []ast.Expr) string {
 				s = append(s, "[]")
 				continue
 			}
+			// a concrete value returned where the result is an interface that may be nil: some value of that interface (what the
+			// value is beyond being non-nil is not modelled — the interface has no method the translated code calls)
+			if i < len(t.cur.resultIface) && t.cur.resultIface[i] != "" && !isNil(r) {
+				if tv, ok := t.info.Types[r]; ok && tv.Type != nil {
+					if _, isI := tv.Type.Underlying().(*types.Interface); !isI {
+						s = append(s, "(some (default : "+t.cur.resultIface[i]+"))")
+						continue
+					}
+				}
+			}
 			s = append(s, t.expr(r))
 		}
 		v = "(" + strings.Join(s, ", ") + ")"
@@ -1611,8 +1622,13 @@ func (t *trans) function(name string) {
 			if n == 0 {
 				n = 1
 			}
+			ifn := ""
+			if id, ok := f.Type.(*ast.Ident); ok && t.nilable[id.Name] {
+				ifn = id.Name
+			}
 			for i := 0; i < n; i++ {
 				ctx.resultIsSlice = append(ctx.resultIsSlice, isSl)
+				ctx.resultIface = append(ctx.resultIface, ifn)
 			}
 		}
 	}
@@ -2064,6 +2080,7 @@ func translate(repo string, p *pkgFiles, outPath string) {
 		{fn: "GetTrackedRequest", recv: "CookieRequestTracker"},
 		{fn: "GetSession", recv: "CookieSessionProvider", as: "cookieGetSession"},
 		{fn: "Decode", recv: "JWTTrackedRequestCodec", as: "trackedRequestClaimsCheck", anchor: "if err != nil {"},
+		{fn: "Decode", recv: "JWTSessionCodec", as: "sessionClaimsCheck", anchor: "if err != nil {"},
 		{fn: "HandleStartAuthFlow", recv: "Middleware", as: "startFlowBinding", anchor: "var binding, bindingLocation string", until: "authReq, err :=", yield: "binding", yieldTy: "String"},
 		{fn: "HandleStartAuthFlow", recv: "Middleware", as: "startFlowLocation", anchor: "var binding, bindingLocation string", until: "authReq, err :=", yield: "bindingLocation", yieldTy: "String"},
 	}
